@@ -303,7 +303,7 @@ PROPS["C15"] = dict(
                "(candidate order is biodivine's); KNOWN FINDING D6: a quoted label containing one of !&|^=<>()?: aborts --lib biodivine and the default --lib hybrid (biodivine rejects the variable name).",
     technique="Lean 4 proof (wiring and ordering of the CLI model) + correspondence of the real binary with the model and the specification",
     jobs=[Job("adf", 120, 2500, size=5, size_thorough=6, extra=("cli",), timeout=900, needs_bins=True,
-              relevant=heads("cli", "clirun", "clibad", "cliexport", "cliq"), nontrivial=lambda st: int(st.get("n", 0)) >= 2)],
+              relevant=heads("cli", "clirun", "clibad", "cliexport", "cliq", "clicount"), nontrivial=lambda st: int(st.get("n", 0)) >= 2)],
     rule=ADF_GEN + "per ADF six invocations of the real binary (4 single-flag, 2 random flag sets; random mode, sorting, heuristic, fact permutation, label class, layout), one malformed file "
          "(missing terminator / trailing garbage / unbalanced bracket / wrong arity / unknown connective / leading blank), every 10th ADF an export-twice-then-import run; "
          "non-trivial = distinct ADF with >= 2 statements",
